@@ -658,3 +658,229 @@ Qed.
 Lemma driver_first_bracket_ok : forall guess, 0 <= guess ->
   in_lo (c_lo driver_cfg) (guess - 1 / 2 * Rabs guess) /\ in_hi (c_hi driver_cfg) (guess + 1 / 2 * Rabs guess).
 Proof. intros guess H. cbn. rewrite Rabs_right by lra. split; [lra|exact I]. Qed.
+
+(* ------------------------------------------------------------------ *)
+(* atan2, whole turns, the dissipation-weighted wavenumber vector       *)
+(* ------------------------------------------------------------------ *)
+(* ---- atan2 ---- *)
+Lemma sqrt_ratio : forall x y, x <> 0 -> sqrt (1 + (y / x)²) = sqrt (x² + y²) / Rabs x.
+Proof.
+  intros x y Hx.
+  assert (Hax : 0 < Rabs x) by (apply Rabs_pos_lt; auto).
+  assert (E : x² + y² = x² * (1 + (y / x)²)).
+  { unfold Rsqr. field. auto. }
+  rewrite E. rewrite sqrt_mult.
+  - rewrite sqrt_Rsqr_abs. field. lra.
+  - apply Rle_0_sqr.
+  - pose proof (Rle_0_sqr (y / x)). lra.
+Qed.
+
+Lemma hyp_pos : forall x y, x <> 0 \/ y <> 0 -> 0 < sqrt (x² + y²).
+Proof.
+  intros x y H. apply sqrt_lt_R0.
+  pose proof (Rle_0_sqr x). pose proof (Rle_0_sqr y).
+  destruct H as [H|H]; [pose proof (Rsqr_pos_lt x H)|pose proof (Rsqr_pos_lt y H)]; lra.
+Qed.
+
+Lemma atan2_spec : forall y x, x <> 0 \/ y <> 0 ->
+  x = sqrt (x² + y²) * cos (atan2 y x) /\ y = sqrt (x² + y²) * sin (atan2 y x).
+Proof.
+  intros y x H. pose proof (hyp_pos x y H) as Hr. unfold atan2.
+  destruct (Rlt_dec 0 x) as [Hx|Hx].
+  - rewrite cos_atan, sin_atan, sqrt_ratio by lra. rewrite Rabs_right by lra.
+    split; field; lra.
+  - destruct (Rlt_dec x 0) as [Hx'|Hx'].
+    + assert (Ex : Rabs x = - x) by (apply Rabs_left; lra).
+      destruct (Rle_dec 0 y).
+      * rewrite neg_cos, neg_sin, cos_atan, sin_atan, sqrt_ratio by lra. rewrite Ex.
+        split; field; lra.
+      * replace (atan (y / x) - PI) with (- (PI - atan (y / x))) by ring.
+        rewrite cos_neg, sin_neg, Rtrigo_facts.cos_pi_minus, Rtrigo_facts.sin_pi_minus.
+        rewrite cos_atan, sin_atan, sqrt_ratio by lra. rewrite Ex.
+        split; field; lra.
+    + assert (x = 0) by lra. subst x.
+      assert (Hy : y <> 0) by (destruct H; [lra|auto]).
+      replace (0² + y²) with (y²) in * by (unfold Rsqr; ring).
+      rewrite sqrt_Rsqr_abs in *.
+      destruct (Rlt_dec 0 y).
+      * rewrite cos_PI2, sin_PI2. rewrite Rabs_right by lra. split; ring.
+      * destruct (Rlt_dec y 0); [|lra].
+        rewrite cos_neg, sin_neg, cos_PI2, sin_PI2. rewrite Rabs_left by lra. split; ring.
+Qed.
+
+(* ---- periodicity with an integer number of turns ---- *)
+Lemma cos_sin_period_Z : forall x (k : Z),
+  cos (x + 2 * IZR k * PI) = cos x /\ sin (x + 2 * IZR k * PI) = sin x.
+Proof.
+  intros x k. destruct (Z_le_gt_dec 0 k) as [Hk|Hk].
+  - rewrite <- (Z2Nat.id k Hk). rewrite <- INR_IZR_INZ. split; [apply cos_period|apply sin_period].
+  - assert (Hn : (0 <= - k)%Z) by lia.
+    set (n := Z.to_nat (- k)).
+    assert (E : IZR k = - INR n).
+    { unfold n. rewrite INR_IZR_INZ, Z2Nat.id by lia. rewrite opp_IZR. ring. }
+    rewrite E.
+    split.
+    + rewrite <- (cos_period (x + 2 * - INR n * PI) n). f_equal. ring.
+    + rewrite <- (sin_period (x + 2 * - INR n * PI) n). f_equal. ring.
+Qed.
+
+(* radians of (fmod (deg of theta) 360) differ from theta by whole turns *)
+Lemma fmod_deg_rad : forall t,
+  cos (fmod (t * 180 / PI) 360 * PI / 180) = cos t /\ sin (fmod (t * 180 / PI) 360 * PI / 180) = sin t.
+Proof.
+  intros t. unfold fmod. pose proof PI_RGT_0 as Hpi.
+  set (m := Int_part (t * 180 / PI / 360)).
+  replace ((t * 180 / PI - IZR m * 360) * PI / 180) with (t + 2 * IZR (- m) * PI).
+  - apply cos_sin_period_Z.
+  - rewrite opp_IZR. field. lra.
+Qed.
+
+Lemma diss_direction_vector : forall D k g,
+  let kx := diss_kx D k g in let ky := diss_ky D k g in
+  kx <> 0 \/ ky <> 0 ->
+  kx = sqrt (kx² + ky²) * cos (diss_direction D k g * PI / 180) /\
+  ky = sqrt (kx² + ky²) * sin (diss_direction D k g * PI / 180) /\
+  0 < sqrt (kx² + ky²).
+Proof.
+  intros D k g kx ky H. unfold diss_direction. fold kx ky.
+  destruct (fmod_deg_rad (atan2 ky kx)) as [Ec Es]. rewrite Ec, Es.
+  destruct (atan2_spec ky kx H) as [A B]. split; [exact A|]. split; [exact B|]. apply hyp_pos; auto.
+Qed.
+
+(* ---- the weighted wavenumber vector as a plain weighted sum ---- *)
+Lemma sum_row_acc : forall row dth dfi acc, sum_row acc row dth dfi = acc + sum_row 0 row dth dfi.
+Proof.
+  induction row as [|a r IH]; intros dth dfi acc; cbn; [ring|].
+  destruct dth as [|t ts]; [ring|]. rewrite IH. rewrite (IH ts dfi (0 + a * dfi * t)). ring.
+Qed.
+
+Lemma sum_grid_acc : forall A df dth acc, sum_grid acc A df dth = acc + sum_grid 0 A df dth.
+Proof.
+  induction A as [|row rs IH]; intros df dth acc; cbn; [ring|].
+  destruct df as [|d ds]; [ring|]. rewrite IH. rewrite (IH ds dth (sum_row 0 row dth d)).
+  rewrite (sum_row_acc row dth d acc). ring.
+Qed.
+
+Fixpoint wrow (ki : R) (drow cs : list R) : list R :=
+  match drow, cs with
+  | d :: dr, c :: cr => (- (ki * c * d)) :: wrow ki dr cr
+  | _, _ => []
+  end.
+Fixpoint wgrid (D : list (list R)) (k cs : list R) : list (list R) :=
+  match D, k with
+  | drow :: ds, ki :: ks => wrow ki drow cs :: wgrid ds ks cs
+  | _, _ => []
+  end.
+
+Lemma kvec_row_sum : forall drow cs dth ki dfi acc,
+  kvec_row acc drow cs dth ki dfi = sum_row acc (wrow ki drow cs) dth dfi.
+Proof.
+  induction drow as [|d dr IH]; intros cs dth ki dfi acc; cbn; auto.
+  destruct cs as [|c cr]; cbn; auto.
+  destruct dth as [|t ts]; cbn; auto.
+  rewrite IH. f_equal. ring.
+Qed.
+
+Lemma kvec_grid_sum : forall D k df cs dth acc,
+  kvec_grid acc D k df cs dth = sum_grid acc (wgrid D k cs) df dth.
+Proof.
+  induction D as [|drow ds IH]; intros k df cs dth acc; cbn; auto.
+  destruct k as [|ki ks]; cbn; auto.
+  destruct df as [|dfi dfs]; cbn; auto.
+  rewrite IH. rewrite kvec_row_sum. reflexivity.
+Qed.
+
+(* kx = sum_ij  k_i cos(theta_j) (-D_ij) df_i dtheta_j   (the dissipation is non-positive) *)
+Lemma diss_kx_weighted_sum : forall D k g,
+  diss_kx D k g = integrate2 (wgrid D k (map cos (g_theta g))) (g_df g) (g_dth g).
+Proof. intros. apply kvec_grid_sum. Qed.
+Lemma diss_ky_weighted_sum : forall D k g,
+  diss_ky D k g = integrate2 (wgrid D k (map sin (g_theta g))) (g_df g) (g_dth g).
+Proof. intros. apply kvec_grid_sum. Qed.
+
+Lemma atan2_scale : forall c y x, 0 < c -> atan2 (c * y) (c * x) = atan2 y x.
+Proof.
+  intros c y x Hc. unfold atan2.
+  assert (Hq : x <> 0 -> c * y / (c * x) = y / x) by (intros; field; lra).
+  assert (P1 : 0 < x -> 0 < c * x) by (intros; apply Rmult_lt_0_compat; lra).
+  assert (P2 : x < 0 -> c * x < 0).
+  { intros. replace (c * x) with (- (c * - x)) by ring. pose proof (Rmult_lt_0_compat c (- x)). lra. }
+  assert (P3 : 0 < y -> 0 < c * y) by (intros; apply Rmult_lt_0_compat; lra).
+  assert (P4 : y < 0 -> c * y < 0).
+  { intros. replace (c * y) with (- (c * - y)) by ring. pose proof (Rmult_lt_0_compat c (- y)). lra. }
+  destruct (Rlt_dec 0 x) as [A|A].
+  - destruct (Rlt_dec 0 (c * x)); [|exfalso; auto]. rewrite Hq by lra. reflexivity.
+  - destruct (Rlt_dec 0 (c * x)) as [B|B].
+    { exfalso. destruct (Rlt_dec x 0) as [C|C]; [pose proof (P2 C); lra|].
+      assert (x = 0) by lra. subst. lra. }
+    destruct (Rlt_dec x 0) as [C|C].
+    + destruct (Rlt_dec (c * x) 0); [|exfalso; auto]. rewrite Hq by lra.
+      destruct (Rle_dec 0 y) as [E|E]; destruct (Rle_dec 0 (c * y)) as [E'|E']; auto.
+      * exfalso. apply E'. apply Rmult_le_pos; lra.
+      * exfalso. assert (y < 0) by lra. pose proof (P4 H). lra.
+    + assert (x = 0) by lra. subst x. replace (c * 0) with 0 by ring.
+      destruct (Rlt_dec 0 0); [lra|].
+      destruct (Rlt_dec 0 y) as [E|E]; destruct (Rlt_dec 0 (c * y)) as [E'|E']; auto.
+      * exfalso; auto.
+      * exfalso. destruct (Rlt_dec y 0) as [F|F]; [pose proof (P4 F); lra|]. assert (y = 0) by lra. subst. lra.
+      * destruct (Rlt_dec y 0) as [F|F]; destruct (Rlt_dec (c * y) 0) as [F'|F']; auto.
+        -- exfalso; auto.
+        -- exfalso. assert (y = 0) by lra. subst. lra.
+Qed.
+
+Definition scale_field (c : R) (D : list (list R)) := map (map (fun v => c * v)) D.
+
+Lemma kvec_row_scale : forall c drow cs dth ki dfi acc,
+  kvec_row (c * acc) (map (fun v => c * v) drow) cs dth ki dfi = c * kvec_row acc drow cs dth ki dfi.
+Proof.
+  induction drow as [|d dr IH]; intros cs dth ki dfi acc; cbn; auto.
+  destruct cs as [|cc cr]; cbn; auto.
+  destruct dth as [|t ts]; cbn; auto.
+  rewrite <- IH. f_equal. ring.
+Qed.
+
+Lemma kvec_grid_scale : forall c D k df cs dth acc,
+  kvec_grid (c * acc) (scale_field c D) k df cs dth = c * kvec_grid acc D k df cs dth.
+Proof.
+  induction D as [|drow ds IH]; intros k df cs dth acc; cbn; auto.
+  destruct k as [|ki ks]; cbn; auto.
+  destruct df as [|dfi dfs]; cbn; auto.
+  rewrite kvec_row_scale. apply IH.
+Qed.
+
+(* the direction depends on the shape of the dissipation field only *)
+Lemma diss_direction_scale : forall c D k g, 0 < c ->
+  diss_direction (scale_field c D) k g = diss_direction D k g.
+Proof.
+  intros c D k g Hc. unfold diss_direction, diss_kx, diss_ky.
+  replace 0 with (c * 0) at 1 by ring. rewrite kvec_grid_scale.
+  replace 0 with (c * 0) at 2 by ring. rewrite kvec_grid_scale.
+  rewrite atan2_scale; auto.
+Qed.
+
+(* PARTIAL.  The property says the balance "vanishes to within the solver's 0.01 m/s step tolerance".
+   What the code guarantees is a bound on the last STEP, not on the residual.  For a final step that is a
+   plain (under-relaxed) Newton/secant step which the bounds check left untouched, the step bound is a
+   residual bound:  |f(x_prev)| < atol |d| / relax,  d the derivative estimate used.
+   Missing for the full statement (and false in general, see notes/C11.md): final steps that are Aitken
+   extrapolations, bisection steps at a stationary point, or were moved by the bounds check, carry no
+   bound on |f|. *)
+Lemma newton_step_residual_partial : forall c s fx r0 r1 g0 g1 b d x,
+  d <> 0 -> c_relax c <> 0 ->
+  finish c s fx r0 r1 g0 g1 b (x2 s + - fx / d * c_relax c) = SDone x ->
+  x = x2 s + - fx / d * c_relax c ->
+  Rabs fx < c_atol c * Rabs d / Rabs (c_relax c).
+Proof.
+  intros c s fx r0 r1 g0 g1 b d x Hd Hr HF Hx.
+  destruct (finish_cases c s fx r0 r1 g0 g1 b (x2 s + - fx / d * c_relax c)) as [E|[[E [Hc _]]|E]];
+    rewrite E in HF; try discriminate.
+  inversion HF as [En]. rewrite En in Hc. rewrite Hx in Hc.
+  replace (x2 s + - fx / d * c_relax c - x2 s) with (- (fx * c_relax c / d)) in Hc by (field; auto).
+  rewrite Rabs_Ropp in Hc. unfold Rdiv in Hc. rewrite !Rabs_mult, Rabs_inv in Hc.
+  assert (Hd' : 0 < Rabs d) by (apply Rabs_pos_lt; auto).
+  assert (Hr' : 0 < Rabs (c_relax c)) by (apply Rabs_pos_lt; auto).
+  assert (E1 : Rabs fx = (Rabs fx * Rabs (c_relax c) * / Rabs d) * (Rabs d / Rabs (c_relax c))) by (field; lra).
+  rewrite E1. unfold Rdiv. rewrite <- Rmult_assoc.
+  apply Rmult_lt_compat_r; [apply Rinv_0_lt_compat; lra|].
+  apply Rmult_lt_compat_r; [lra|]. exact Hc.
+Qed.
